@@ -35,6 +35,7 @@ type Vector struct {
 	Note     string  `json:"note,omitempty"`
 	Layout   string  `json:"layout,omitempty"` // minus-first (default) | plus-first | ctx
 	Header   string  `json:"header,omitempty"` // patch lines (package / import clauses) placed before the pattern
+	Guard    string  `json:"guard,omitempty"`  // "fail": the guard in Header does not hold for the target file
 }
 
 // replaceDots rewrites every "..." that is an elision (not followed by an
